@@ -49,6 +49,12 @@ CHECKS = {
     "C15": ("exploration", "metamorphic runtime oracle on the real capability parser (whole list vs in-order merge of single records) and paging invariance through get_capabilities() for every split point",
             "Every known capability id x every value between sentinel records, temperature records of sizes 0..10 at every position, unknown/zero-size/odd-size records, random lists of <= 12 records; every split point across two responses.",
             "Only well-formed lists are judged; single-record interpretations come from the real parser (no value tables in the oracle).", "DESIGN.md section 2 C15"),
+    "C07": ("exploration", "offline trace checker over the simulated device's per-connection wire log (decoded with the device's own keys) joined with the harness call log; virtual-time clock jumps",
+            "All event histories of depth <= 3 (quick) / <= 4 (thorough) over an 11-letter alphabet with 4 connection-lifetime settings, directed periodic-use histories, random histories to depth 25, and one long single-connection session (> 4096 / > 65536 packets).",
+            "Histories start with a successful authenticate; 'bad credentials' = token the device rejects; instants offset so no exchange starts exactly on an expiry boundary.", "DESIGN.md section 2 C07"),
+    "C08": ("fault_enumeration", "virtual-time reference retry model vs transmissions counted by the simulated device; fault-sequence enumeration with a recovery oracle at LAN and device level",
+            "All answer-delay patterns for retry budgets 1..4 on V2 and V3, every single fault and ordered pair (thorough: triple) of faults across connect/handshake/data phases, cancellation instants on a 0.1 s grid.",
+            "Timing verdicts on virtual time only; scripted delays never coincide with a timeout instant.", "DESIGN.md section 2 C08"),
 }
 
 NOT_YET = "check not built yet in this round (planned in DESIGN.md section 2)"
